@@ -121,4 +121,52 @@ theorem sortBy_sorted (lt : α → α → Bool) (l : List α)
             · exact htrans a (hacc a (by simp [ha])) y hy x hx (hp.1 a ha) hlt'
   exact key l [] (fun a ha => ha) (by simp) List.Pairwise.nil
 
+/-- stability: elements among which nothing compares `Less` keep their relative order -/
+theorem sortBy_filter_stable (lt : α → α → Bool) (p : α → Bool) (l : List α)
+    (h : ∀ a ∈ l, ∀ b ∈ l, p a = true → p b = true → lt a b = false) :
+    (sortBy lt l).filter p = l.filter p := by
+  unfold sortBy
+  have hins : ∀ (x : α) (acc : List α), x ∈ l → (∀ b ∈ acc, b ∈ l) →
+      (insTail lt x acc).filter p = if p x then x :: acc.filter p else acc.filter p := by
+    intro x acc hx
+    induction acc with
+    | nil => intro _; simp [insTail, List.filter_cons]
+    | cons y ys ih =>
+      intro hacc
+      have hy : y ∈ l := hacc y List.mem_cons_self
+      have ih' := ih (fun b hb => hacc b (List.mem_cons_of_mem _ hb))
+      simp only [insTail]
+      split
+      · rename_i hlt
+        simp only [List.filter_cons, ih']
+        by_cases hpx : p x = true
+        · have hpy : p y = false := by
+            cases hp : p y with
+            | false => rfl
+            | true => rw [h x hx y hy hpx hp] at hlt; cases hlt
+          simp [hpx, hpy]
+        · simp [hpx]
+      · simp only [List.filter_cons]
+  have key : ∀ (xs acc : List α), (∀ a ∈ xs, a ∈ l) → (∀ b ∈ acc, b ∈ l) →
+      (xs.foldl (fun acc x => insTail lt x acc) acc).filter p = (xs.filter p).reverse ++ acc.filter p := by
+    intro xs
+    induction xs with
+    | nil => intro acc _ _; simp
+    | cons x xs ih =>
+      intro acc hxs hacc
+      simp only [List.foldl_cons]
+      have hx : x ∈ l := hxs x List.mem_cons_self
+      rw [ih _ (fun a ha => hxs a (List.mem_cons_of_mem _ ha))
+        (fun b hb => by
+          rcases (insTail_perm lt x acc).mem_iff.mp hb with hb'
+          simp only [List.mem_cons] at hb'
+          rcases hb' with rfl | hb'
+          · exact hx
+          · exact hacc b hb'),
+        hins x acc hx hacc]
+      simp only [List.filter_cons]
+      split <;> simp
+  rw [List.filter_reverse, key l [] (fun a ha => ha) (by simp)]
+  simp
+
 end Chewing.TrieCodec
